@@ -145,6 +145,8 @@ def history_plan(rng, tier, levels, silent_streak=False, identity_changes=True, 
         i = rng.choice(cand)
         ops.append(plan_ops[i].pop(0))
     plan = {"flavour": rng.choice(["sync", "async"]), "agent": agent, "sessions": sessions, "ops": ops, "scripts": scripts, "latency_ns": gen.latency(rng, 1000, 2_000_000), "ready_order_seed": rng.randrange(2**31)}
+    if len(sessions) > 1 and rng.random() < 0.5:
+        plan["share_objects"] = True
     if plan["flavour"] == "async":
         # the environment task cannot be interleaved deterministically with per-session idles: keep env ops out
         plan["ops"] = [o for o in ops if o["op"] != "agent"]
